@@ -38,6 +38,10 @@ func NewServiceProvider(id string, config *Config, loginURL func(string) string)
 		return nil, err
 	}
 
+	if metadata.SPSSODescriptor == nil {
+		return nil, fmt.Errorf("metadata contains no SPSSODescriptor")
+	}
+
 	var signerPublicKey interface{}
 	certs, err := getSigningCertsFromMetadata(metadata)
 	if err != nil {
